@@ -121,6 +121,28 @@ def check(rep, tier, seed):
             o2 = origin(src2) if src2 is not None else None
             ob("date header value is get_date_time_rfc1123_string() of this request", isinstance(o2, Sym) and o2.tag[0] == "ret" and o2.tag[1].endswith("get_date_time_rfc1123_string"),
                "C05.date-value", "source %r" % (src2,))
+        # "a request the proxy signs": not one of the two exempt uploads, and a key is latched. Such a request is relayed with the
+        # proxy's authorization value (which replaces whatever the client sent) - a relay without compute_signature must be explained
+        # by the key being absent
+        skip = [e for e in pre if e.kind == "call" and e.callee.endswith("should_skip_sig")]
+        exempt = bool(skip) and p.implied(skip[-1].ret.scalar("bool"))
+        if not exempt and not [e for e in pre if e.kind == "call" and e.callee.endswith("compute_signature")]:
+            ka = [e for e in pre if e.kind == "await" and re.search(r"get_current_key", e.callee)]
+            if not ka:
+                ob("a request that is not exempt is relayed unsigned only when no key is latched", False, "C05.signed-when-key", "the relay path never reads the key")
+            else:
+                conds = []
+                for k in ka:
+                    uw = [e for e in pre if e.kind == "call" and re.search(r"unwrap_or(_default)?$", e.callee) and e.rargs and origin(e.rargs[0]) is k.ret]
+                    val = uw[0].ret if uw else k.ret.child(("v", "Ok", 0))
+                    val = origin(val)
+                    if isinstance(val, Sym) and (val.ty or "").startswith("(") or any(isinstance(kk, tuple) and kk[0] == "f" for kk in getattr(val, "_kids", {})):
+                        conds += [val.child(("f", 0)).discr() == 1, val.child(("f", 1)).discr() == 1]
+                    elif isinstance(val, Sym):
+                        conds.append(val.discr() == 1)
+                rs, _m, _dt, _zm = check_sat(p.pc + conds)
+                ob("a request that is not exempt is relayed unsigned only when no key is latched", rs == "unsat", "C05.signed-when-key",
+                   "the relay is reachable with a key present (%s) and no signature computed: the client's authorization header, if any, reaches the host" % rs)
         if signed:
             i3 = inserts[names.index(AU)]
             ob("authorization header is inserted into the very request that is relayed", same_origin(map_owner(p, i3), sent), "C05.auth-map-owner")
